@@ -199,7 +199,7 @@ def a64_unit_mem(ebase, eoffs=(None, "imd", "*"), eidxs=(None, "x", "z", "*")):
     def unit(res):
         ex = engine("aarch64")
         for eoff, eidx, escale, epre, epost in itertools.product(eoffs, eidxs, ("sym", "*"), (False, True, "*"), (False, True, "*")):
-            for pb, po, pi, ppre, ppost in itertools.product((True,), ("none", "imm", "ident"), (False, True), (False, True), ("no", "true", "dict")):
+            for pb, po, pi, ppre, ppost in itertools.product((True,), ("none", "imm", "ident"), (False, True), (False, True), ("no", "true", "dict", "regdict")):
                 if ppre and ppost != "no":
                     continue
                 ip = BStr.fresh("ip", 1)
@@ -211,7 +211,9 @@ def a64_unit_mem(ebase, eoffs=(None, "imd", "*"), eidxs=(None, "x", "z", "*")):
                     off = {"none": None, "imm": ex.instantiate("ImmediateOperand", kw=dict(value=SNum(ov, True))), "ident": ex.instantiate("IdentifierOperand", kw=dict(name="sym"))}[po]
                     m = ex.instantiate("MemoryOperand", kw=dict(offset=off, base=ex.instantiate("RegisterOperand", kw=dict(prefix=bp, name="1")),
                                                               index=ex.instantiate("RegisterOperand", kw=dict(prefix=ip, name="2")) if pi else None, scale=SNum(ps, True),
-                                                              pre_indexed=ppre, post_indexed={"no": False, "true": True, "dict": {"value": SNum(ov, True)}}[ppost]))
+                                                              pre_indexed=ppre, post_indexed={"no": False, "true": True, "dict": {"value": SNum(ov, True)},
+                                                                                                  # post-index by a register, as the parser stores it ('ld1 {v0.2d}, [x0], x1')
+                                                                                                  "regdict": {"identifier": {"name": "x1"}}}[ppost]))
                     e = ex.instantiate("MemoryOperand", kw=dict(offset=eoff, base=ebase, index=eidx, scale="*" if escale == "*" else SNum(es, True), pre_indexed=epre, post_indexed=epost))
                     got = ex.call_method("MachineModel", "_check_operands", mm("aarch64"), [e, m])
                     want = ex.call_function("a64_mem_agrees", [e, m, {"none": None, "imm": "imd", "ident": "id"}[po]])
